@@ -374,6 +374,11 @@ func init() {
 			{"raw", func(n int) []byte { return []byte(strings.Repeat("y", n)) }, []string{"quote", "html", "utf8v", "unquote", "mar_str", "utf8c"}},
 			{"rawq", func(n int) []byte { return []byte(strings.Repeat("y", n) + "\"") }, []string{"quote", "mar_str"}},
 			{"rawbs", func(n int) []byte { return []byte(strings.Repeat("y", n) + "\\") }, []string{"unquote", "quote"}},
+			// inputs whose escaped image is several times their size: the restart loops of Quote / HtmlEscape grow
+			// the buffer more than once and must resume exactly where the native routine stopped
+			{"rawctl", func(n int) []byte { return []byte(strings.Repeat("\x01", n)) }, []string{"quote", "mar_str"}},
+			{"rawqq", func(n int) []byte { return []byte(strings.Repeat("\"\\", n/2+1)) }, []string{"quote", "mar_str"}},
+			{"rawlts", func(n int) []byte { return []byte(strings.Repeat("<&", n/2+1)) }, []string{"html", "mar_strstd"}},
 			{"rawlt", func(n int) []byte { return []byte(strings.Repeat("y", n) + "<") }, []string{"html", "mar_strstd"}},
 			{"rawe2", func(n int) []byte { return []byte(strings.Repeat("y", n) + "\xe2\x80") }, []string{"html", "utf8v", "utf8c", "mar_strstd"}},
 			{"rawhi", func(n int) []byte { return []byte(strings.Repeat("y", n) + "\xe4\xb8") }, []string{"utf8v", "utf8c", "utf8vs"}},
